@@ -291,6 +291,10 @@ def run_history(ctx, pool, gold, limit, hno, alts):
     encs = {'plain': Encoder(), 'c1': Encoder(compiled_template_cache_max=1)}
     from pybufrkit.dataquery import DataQuerent, NodePathParser
     long_q = DataQuerent(NodePathParser())
+    from pybufrkit.renderer import FlatTextRenderer, NestedTextRenderer, FlatJsonRenderer, NestedJsonRenderer
+    from pybufrkit.mdquery import MetadataExprParser, MetadataQuerent
+    long_tools = dict(ft=FlatTextRenderer(), nt=NestedTextRenderer(), fj=FlatJsonRenderer(), nj=NestedJsonRenderer(),
+                      dq=DataQuerent(NodePathParser()), mq=MetadataQuerent(MetadataExprParser()))
 
     def outcome_of(f):
         try:
@@ -415,7 +419,11 @@ def run_history(ctx, pool, gold, limit, hno, alts):
                     ctm, keys0 = None, set()
                 try:
                     m = decs[dn].process(b)
-                    got = DG.message_digest(m)
+                    # (every third decode is rendered and queried with the renderers / querents that serve the whole history)
+                    use_tools = step % 3 == 1
+                    got = DG.message_digest(m, tools=long_tools if use_tools else None)
+                    if use_tools:
+                        ctx.count('digests_with_long_lived_renderers_and_querents')
                 except Exception as e:
                     ctx.violate('history-dependence/decode-raises:%s/after-%s' % (type(e).__name__, prev),
                                 'step %d: %s of %s raised %s after history %s' % (step, op, name, type(e).__name__, hist[-8:]),
